@@ -35,24 +35,27 @@ Definition validate_with (s : schema) (doc : qdoc) (rules : list rinst) : list v
   run_events rules (walk s doc).
 
 (* the rules in the order validator/rules registers them (init order = file name order) *)
-Definition default_rules (s : schema) (doc : qdoc) : list rinst :=
+(* pre: the document object was validated before (see Rules2.annotated) *)
+Definition default_rules (pre : bool) (s : schema) (doc : qdoc) : list rinst :=
   [ r_FieldsOnCorrectType s false; r_FragmentsOnCompositeTypes s; r_KnownArgumentNames s false;
     r_KnownDirectives s; r_KnownFragmentNames doc; r_KnownRootType s; r_KnownTypeNames s false;
     r_LoneAnonymousOperation doc; r_MaxIntrospectionDepth doc; r_NoFragmentCycles doc;
     r_NoUndefinedVariables; r_NoUnusedFragments; r_NoUnusedVariables;
-    r_OverlappingFieldsCanBeMerged s doc; r_PossibleFragmentSpreads s doc; r_ProvidedRequiredArguments s;
+    r_OverlappingFieldsCanBeMerged s doc pre; r_PossibleFragmentSpreads s doc; r_ProvidedRequiredArguments s;
     r_ScalarLeafs s; r_SingleFieldSubscriptions s doc; r_UniqueArgumentNames; r_UniqueDirectivesPerLocation s;
     r_UniqueFragmentNames; r_UniqueInputFieldNames; r_UniqueOperationNames; r_UniqueVariableNames;
     r_ValuesOfCorrectType false; r_VariablesAreInputTypes s; r_VariablesInAllowedPosition ].
 
-Definition all_rules (s : schema) (doc : qdoc) : list rinst :=
-  default_rules s doc ++
+Definition all_rules (pre : bool) (s : schema) (doc : qdoc) : list rinst :=
+  default_rules pre s doc ++
   [ r_FieldsOnCorrectType s true; r_KnownArgumentNames s true; r_KnownTypeNames s true; r_ValuesOfCorrectType true ].
 
-Definition rule_by_name (s : schema) (doc : qdoc) (n : str) : option rinst :=
-  find (fun r => str_eqb (rinst_name r) n) (all_rules s doc).
+Definition rule_by_name (pre : bool) (s : schema) (doc : qdoc) (n : str) : option rinst :=
+  find (fun r => str_eqb (rinst_name r) n) (all_rules pre s doc).
 
-Definition validate (s : schema) (doc : qdoc) : list verr := validate_with s doc (default_rules s doc).
+Definition validate (s : schema) (doc : qdoc) : list verr := validate_with s doc (default_rules false s doc).
+(* validating the same document object again: the walker's annotations are already there *)
+Definition validate_again (s : schema) (doc : qdoc) : list verr := validate_with s doc (default_rules true s doc).
 
 (* ---------------- dump ---------------- *)
 Definition dump_verr (e : verr) : str :=
